@@ -260,10 +260,10 @@ func runC09(cfg config) {
 					case eerr != nil:
 						oc = "Err"
 					case len(out) == 1:
-						if t, ok := c09Parse(out[0]); ok {
+						if t, ok := c09Parse(out[0]); ok && c09ValueIsWhatItPrints(out[0]) {
 							oc = "(Ok (" + t + "))"
 						} else {
-							oc = "Panic"
+							oc = "Panic" // unreadable, or a value that is not the one it prints: no model outcome
 						}
 					default:
 						oc = "Panic"
@@ -319,4 +319,33 @@ func runC09(cfg config) {
 		}
 	}
 	sink.finish("month ends, leap days and year edges (thorough: every day of a 4-year leap cycle) x every Date/DateTime/Time precision x offsets {none, Z, +05:30, -11:00} x every calendar keyword singular and plural and UCUM-style/other units x amounts {0,1,11,12,13,23,24,25,59,60,61,365,366,1000, fractional, negative} (quick: three seeded amounts per value and unit) x {+,-}; results are read back from the value's printed form; quantities added/subtracted over equal and different units; process time zone UTC", false)
+}
+
+// c09ValueIsWhatItPrints: the result, compared (with the comparison `=` uses) with the value its own printed form parses
+// to, is equal -- a result that prints 22:30:00 but lies on another day, or hides digits below its precision, is not.
+func c09ValueIsWhatItPrints(v any) bool {
+	switch x := v.(type) {
+	case system.Date:
+		p, err := system.ParseDate(x.String())
+		if err != nil {
+			return false
+		}
+		eq, ok := p.TryEqual(x)
+		return eq && ok
+	case system.DateTime:
+		p, err := system.ParseDateTime(x.String())
+		if err != nil {
+			return false
+		}
+		eq, ok := p.TryEqual(x)
+		return eq && ok
+	case system.Time:
+		p, err := system.ParseTime(x.String())
+		if err != nil {
+			return false
+		}
+		eq, ok := p.TryEqual(x)
+		return eq && ok
+	}
+	return true
 }
